@@ -376,11 +376,15 @@ def edit_constant(parameterized):
         private.unlocked += 1
         try:
             names = private.unlocked_params
-            for name, pobj in parameterized.param.objects(instance=False).items():
-                if private.params.get(name, pobj).constant and name not in names:
-                    names.append(name)
-                if pobj.constant and ('class', name) not in names:
-                    names.append(('class', name))
+            if private.unlocked == 1:
+                # (the outermost block finds the constants: a nested one -
+                # a helper of the object, the synchronisation of a
+                # reference - does not unlock what was made constant since)
+                for name, pobj in parameterized.param.objects(instance=False).items():
+                    if private.params.get(name, pobj).constant and name not in names:
+                        names.append(name)
+                    if pobj.constant and ('class', name) not in names:
+                        names.append(('class', name))
             for name in names:
                 pobj = private.params.get(name) if isinstance(name, str) else None
                 if pobj is not None and pobj.constant:
@@ -618,12 +622,11 @@ def _instantiated_parameter(parameterized, param):
                 if unlocking is not None and key in unlocking[0] and not pobj.constant:
                     unlocking[1].append(pobj)
             private = parameterized._param__private
-            if private.unlocked and (pobj.constant or key in private.unlocked_params):
-                # created inside edit_constant(parameterized): it shows
-                # the object as editable like its other Parameters
+            if private.unlocked and key in private.unlocked_params:
+                # created inside edit_constant(parameterized), for one of
+                # the constants the block found: it shows the object as
+                # editable like its other Parameters
                 pobj.constant = False
-                if key not in private.unlocked_params:
-                    private.unlocked_params.append(key)
 
         param = parameterized._param__private.params[key]
 
@@ -1776,9 +1779,12 @@ class Parameter(_ParameterBase):
             elif not obj._param__private.initialized:
                 _old = self._shown(obj)
                 obj._param__private.values[self.name] = val
-            elif obj._param__private.unlocked and self.name in obj._param__private.unlocked_params:
+            elif (obj._param__private.unlocked and self.name in obj._param__private.unlocked_params
+                  and self.owner is not obj):
                 # inside edit_constant(obj), one of the constants it found
-                # (not one that was made constant since)
+                # (not one that was made constant since: the Parameter
+                # objects of the instance itself show constant=False inside
+                # the block unless they were locked again by hand)
                 _old = self._shown(obj)
                 obj._param__private.values[self.name] = val
             else:
@@ -1874,7 +1880,8 @@ class Parameter(_ParameterBase):
         if self.readonly:
             raise TypeError("Read-only parameter '%s' cannot be modified" % self.name)
         private = obj._param__private
-        if self.constant and private.initialized and not (private.unlocked and self.name in private.unlocked_params):
+        if self.constant and private.initialized and not (
+                private.unlocked and self.name in private.unlocked_params and self.owner is not obj):
             # A reference would keep rebinding the constant whenever its
             # source changes, whatever it resolves to at the moment
             if ref is not None or val is not self._shown(obj):
@@ -5071,6 +5078,12 @@ class ParameterizedMetaclass(type):
                 type.__setattr__(mcs,attribute_name,parameter)
                 # the class and its subclasses are now governed by the copy
                 mcs._clear_parameters_cache()
+                for klass in mcs.__mro__:
+                    # (inside edit_constant(a class it inherits from): the
+                    # copy has the flag off, it is locked again with the rest)
+                    unlocking = getattr(klass.__dict__.get('_param__private'), 'unlocking', None)
+                    if unlocking is not None and attribute_name in unlocking[0] and not parameter.constant:
+                        unlocking[1].append(parameter)
                 previous = parameter.default
                 try:
                     parameter.__set__(None,value)
@@ -5764,7 +5777,9 @@ class _InstancePrivate:
         self.unlocked = 0
         for name in unlocked:
             if name in self.params:
-                self.params[name].constant = True
+                # (silently: the object is not complete yet, its watchers
+                # must not run)
+                object.__setattr__(self.params[name], 'constant', True)
         self.unlocked_params = []
 
 
